@@ -192,6 +192,11 @@ C10_unchanged(o) == Failed(o) => o.post = o.pre /\ o.logpost = o.logpre
 (***************************************************************************)
 C12_function_of_log(o) == Replay(o.logpost).err = "" => View(Replay(o.logpost)) = o.post
 C12_reads_pure(o) == IsRead(o.cmd) => o.post = o.pre /\ o.logpost = o.logpre
+\* a store written only by ergo commands can always be read, and list and show
+\* agree about every item (facts recorded by the harness: every read command
+\* exited 0; no item differed between `list --json` and `show --json`)
+C12_readable(o) == o.readable
+C12_consistent(o) == o.listshow
 C12_history_grows(o) == o.cmd.name # "compact" => IsPrefix(o.logpre, o.logpost)
 
 (***************************************************************************)
@@ -218,7 +223,9 @@ VWaits(v) == {<<t, u>> \in VTasks(v) \X VTasks(v) :
                 \/ u \in v[t].deps
                 \/ (v[t].epic \in VEpics(v) /\ \E e2 \in v[v[t].epic].deps :
                        e2 \in VEpics(v) /\ v[u].epic = e2)}
-C15_progress(o) == Progress(o.post) \/ ~Progress(o.pre)
+\* step form; a step that merely exposes a cycle built earlier is not the
+\* culprit (the step that closed the cycle fails C15_waits)
+C15_progress(o) == Progress(o.post) \/ ~Progress(o.pre) \/ ~Acyclic(VWaits(o.pre))
 C15_waits(o) == Acyclic(VWaits(o.post)) \/ ~Acyclic(VWaits(o.pre))
 C15_claim(o) == o.cmd.name = "claim" /\ o.exit = 0 /\ o.reply.status = "no_ready" /\ o.cmd.epic = "" =>
                   ~((\E t \in VTasks(o.pre) : o.pre[t].state = "todo")
